@@ -58,14 +58,20 @@ CLAIMED = {
             "wires and templates outside. F24 (SWAP group on partially overlapping wires) fixed in repo.",
             "DESIGN.md 4 C08", "E2"),
     "C09": ("proof",
-            "contract on each parametrized gate: exponent differences of exp(i*theta_k) in the exact Laurent normal form of "
-            "the real matrix lie within the declared frequencies; violations need a DFT replay on the real operator",
+            "contract on each parametrized gate: exponent differences of exp(i*theta_k) in the exact Laurent normal form "
+            "of the real matrix lie within the declared frequencies; violations need a DFT replay on the real operator. "
+            "In addition the real generate_shift_rule/_get_shift_rule/process_shifts are run on every declared frequency "
+            "tuple with default and seeded custom shifts and must satisfy sum_i c_i e^{i w s_i} = (i w)^order for all "
+            "declared w and w = 0 (bounded stand-in, float tolerance 1e-8)",
             "For every parametrized named gate and parameter the set of exponent differences of the exact symbolic matrix "
             "(a superset of the spectrum of every expectation value, for every state, observable and surrounding circuit) "
-            "is contained in the declared frequencies; all other parameters stay symbolic.",
+            "is contained in the declared frequencies; all other parameters stay symbolic. The shift rules generated for "
+            "the declared spectra are exact up to 1e-8 at the sampled shift sets (36 bounded obligations, never counted "
+            "as proved).",
             "Trusts vf/symx and the bilinearity lemma; numpy interface path; MultiRZ/PauliRot/PCPhase size-bounded; PSWAP "
-            "declares no frequencies (no claim).",
-            "DESIGN.md 4 C09", "E2"),
+            "declares no frequencies (no claim); shift-rule coefficients come from float formulas / a float linear solve, "
+            "so that part is bounded.",
+            "DESIGN.md 4 C09, 7", "E2"),
     "C10": ("proof",
             "contract on every applicable registered rule: ordered product of the emitted operators' matrices == the "
             "operator's matrix; the real rule and the real matrix kernels run on exact symbolic parameters; "
@@ -96,29 +102,43 @@ CLAIMED = {
             "execution of the branches and template rules without instance builder (e.g. TemporaryAND) are not covered.",
             "DESIGN.md 4 C13", "E2"),
     "C16": ("proof",
-            "sidecar contracts (pre/post, allowed exceptions, loop invariants with decreases) on the real methods of "
-            "rings.py and norm_solver._solve_diophantine; VCs generated from the function ASTs on every run (all paths), "
-            "discharged by z3 (NIA); ring laws as lemmas over independent spec functions; counter-models replayed natively",
-            "Every ring operator of ZSqrtTwo/ZOmega (add, sub, rsub, mul, neg, eq, pow with loop invariant, exact division, "
-            "floor division, conj, adj2, norm, abs, sqrt, conversions, normalize) is proved equal to an independently "
-            "written spec in Z[x]/(x^2-2) resp. Z[w]/(w^4+1) for all (unbounded) integers and operand types; ring laws and "
-            "norm multiplicativity are proved over the spec; every value returned by _solve_diophantine satisfies "
-            "conj(t)*t == xi (callees that only produce candidates are havocked). DyadicMatrix/SO3Matrix, __mod__/_gcd, "
-            "_sqrt_modulo_p and the primality test are NOT covered yet (listed unverified).",
-            "Trusts the pyvc encoder (Python subset semantics), z3; python ints are mathematical integers (exact); integral "
-            "floats as reals; termination only where a decreases clause is given.",
-            "DESIGN.md 4 C16", "E1"),
+            "sidecar contracts (pre/post, allowed exceptions, loop invariants) on the real methods of rings.py and "
+            "norm_solver.py; ring elements are integer coefficient tuples with independently written polynomial products, "
+            "dyadic/SO(3) matrices are tracked through their denoted value (1/sqrt2)^k*M via an iterated-sqrt2 spec "
+            "function; every while-loop is cut by an invariant (value preservation for the normalize loops, common "
+            "divisors for Euclid, r^2 - a*t = p*K over a modular-power spec function for Tonelli-Shanks, product "
+            "invariant for the factorisation stack); callees are used through their verified contracts; ring laws and "
+            "induction steps are z3 lemmas; VCs generated from the function ASTs on every run (all paths), z3 NIA; "
+            "counter-models replayed natively",
+            "Every ring operator of ZSqrtTwo/ZOmega (add, sub, rsub, mul, neg, eq, pow, exact and floor division, "
+            "__mod__, conj, adj2, norm, abs, sqrt, conversions, normalize) equals an independently written spec in "
+            "Z[x]/(x^2-2) resp. Z[w]/(w^4+1) for all integers; ring laws and norm multiplicativity hold over the spec; "
+            "DyadicMatrix normalize/__init__/__add__/__matmul__/__mul__/conj/adj2/mult2k and SO3Matrix "
+            "normalize/__matmul__/from_matrix preserve or compute the denoted value; ring _gcd keeps the common divisors; "
+            "_legendre_symbol/_sqrt_modulo_p return None or a square root mod p for every p >= 2; the prime-factor "
+            "helpers return divisors; every value returned by _solve_diophantine satisfies conj(t)*t == xi over those "
+            "verified callee contracts. The primality test is a labelled bounded stand-in against sympy.isprime "
+            "(stratified values up to 2^64).",
+            "Trusts the pyvc encoder (Python subset semantics), z3; python ints are mathematical integers (exact); "
+            "int(math.pow(2,e)) modelled exactly up to 2^1023, round(n/d) havocked; _integer_factorize, sorted, "
+            "np.allclose on exact integers assumed; termination, the SO(3) homomorphism and from_matrix outside special- "
+            "unitary shape are not covered.",
+            "DESIGN.md 4 C16, 7", "E1"),
     "C44": ("proof",
             "sidecar contracts over the abstract view expand(spec) on the real methods of core/shots.py; sequences of "
-            "SYMBOLIC length (z3 Seq), loop invariants for the merging loop / generators, modular callee contract for "
-            "__all_tuple_init__, induction lemmas (base+step) for the derived laws of the spec functions; z3",
-            "__all_tuple_init__ (merging of adjacent equal entries), __init__ for None/int/str/float/list/tuple inputs, "
-            "__iter__, bins, __bool__, has_partitioned_shots, __add__, __eq__, valid_int/valid_tuple are proved for every "
-            "input of every length: shot_vector/total/iteration/bins agree with the expanded list, + concatenates it. "
-            "__mul__ is proved for all values on vectors of 1-3 entries (size-bounded, reported separately).",
-            "Trusts the pyvc encoder, z3 (Seq + LIA/NIA); A-concrete-inputs (abstract-array branches dropped); float scalar as "
-            "real; mixed int/pair input sequences of symbolic length, num_copies and __hash__ are not covered.",
-            "DESIGN.md 4 C44", "E1"),
+            "SYMBOLIC length (z3 Seq) including sequences mixing ints and (shots, copies) pairs (contract-defined element "
+            "codec), loop invariants for the merging loop / generators, modular callee contract for __all_tuple_init__, "
+            "about fifty induction lemmas (base+step) for the laws of the recursively defined spec functions VALID, "
+            "CANON, SCALED, MAP, NORM; z3",
+            "Constructor on every input kind including mixed int/pair sequences of symbolic length, __iter__, bins, "
+            "__bool__, has_partitioned_shots, num_copies, __add__, __mul__/__rmul__ (vectors of any length: per-execution "
+            "list [int(s*k)], ValueError iff a product truncates to 0), __eq__ (<=> equal expansion on canonical "
+            "vectors), __hash__ (function of the shot vector), canonical form of constructed vectors, "
+            "valid_int/valid_tuple: proved for every input of every length.",
+            "Trusts the pyvc encoder and z3 (Seq + LIA/NRA); A-concrete-inputs (abstract-array branches dropped); float "
+            "scalar as real; hash(tuple) as an uninterpreted function of the value; abstract shot values and bools inside "
+            "sequences are not covered.",
+            "DESIGN.md 4 C44, 7", "E1"),
     "C03": ("proof",
             "wrapper contracts over a GENERIC base: a real Operator subclass whose matrix has symbolic complex entries is "
             "wrapped by the real Adjoint/Pow/Controlled/Prod/Sum/SProd/map_wires/simplify and the resulting matrices are "
@@ -159,15 +179,26 @@ CLAIMED = {
             "mitigate_with_zne are not covered.",
             "DESIGN.md 4 C25", "E1"),
     "C28": ("proof",
-            "contract on each built-in channel's compute_kraus_matrices under its own domain guards as path condition: all "
-            "radicands >= 0 and |sum K^dagger K - I| <= 16*eps (eps = the source's sqrt stabiliser); real kernel executed "
-            "on sympy-backed scalars, obligations discharged by z3 NRA; float replay",
+            "(1) contract on each built-in channel's compute_kraus_matrices under its own domain guards as path "
+            "condition: all radicands >= 0 and |sum K^dagger K - I| <= 16*eps (eps = the source's sqrt stabiliser); real "
+            "kernel executed on sympy-backed scalars, obligations discharged by z3 NRA, float replay; "
+            "ThermalRelaxationError in both branches with exp(-tg/t) abstracted to symbols constrained by the "
+            "monotonicity facts of the branch. (2) the real default.mixed kernels (apply_operation_einsum, "
+            "apply_operation_tensordot, the apply_operation dispatch with its fast paths, get_final_state, "
+            "measure_final_state) run on a generic symbolic density tensor and generic symbolic Kraus matrices; every "
+            "result entry is compared, as a polynomial, with an index-arithmetic Kraus sum. (3) trace and Hermiticity "
+            "preservation are polynomial lemmas over that reference",
             "Kraus completeness of AmplitudeDamping, GeneralizedAmplitudeDamping, PhaseDamping, DepolarizingChannel, "
-            "BitFlip, PhaseFlip, ResetError and PauliError (six words) for every parameter of the documented domain, up to "
-            "the stabilising epsilon the code itself adds (exact equality is false by construction).",
-            "Trusts vf/symx/sscalar.py, sympy expand, z3 nlsat; ThermalRelaxationError, QubitChannel and everything about "
-            "default.mixed's evolution (PSD, trace, Kraus-sum simulation) is not covered.",
-            "DESIGN.md 4 C28", "E2"),
+            "BitFlip, PhaseFlip, ResetError, PauliError (six words) and ThermalRelaxationError for every parameter of the "
+            "documented domain, up to the stabilising epsilon the code itself adds; the simulator kernels apply sum_k K "
+            "rho K^dagger for all states and all operator matrices (size-bounded: 1-3 target wires in every placement on "
+            "3-4-wire states, 1-2 Kraus operators, batch None/1/2, idle measured wires); trace preserved for complete "
+            "Kraus sets, Hermitian in => Hermitian out. Open known finding F32: ThermalRelaxationError with T1 < T2 <= "
+            "2*T1 is not trace preserving for long gate times.",
+            "Trusts vf/symx/sscalar.py, sympy expand, z3 nlsat, the autoray.astype patch that keeps object arrays "
+            "symbolic during the trace; positive semidefiniteness is argued from the Kraus form, not machine-checked; "
+            "QubitChannel's allclose validation, other interfaces and wire counts above the bound are not covered.",
+            "DESIGN.md 4 C28, 7", "E2"),
     "C19": ("proof",
             "sidecar contract on the main loop of transforms/transpile.py:transpile (the `while len(list_op_copy) > 0` statement is "
             "cut from the real AST on every run and verified as a procedure over its free variables): operation list of "
@@ -361,9 +392,12 @@ CLAIMED = {
             "normal and exceptional exit without swallowing exceptions, append/remove/update_info/get_info act exactly once on "
             "the INNERMOST queue and not at all outside a context or under stop_recording, stop_recording restores the same "
             "list object afterwards (also after exceptions), apply copies and queues exactly once, AnnotatedQueue keeps "
-            "insertion order == call order and removes exactly the named object -- for all stack depths and queue lengths.",
-            "Trusts the pyvc encoder, z3; OrderedDict, copy.copy, Operator.queue and the with-protocol are assumed; operators "
-            "consumed by wrapper constructors, metadata kwargs, from_queue, capture mode and threads are outside.",
+            "insertion order == call order and removes exactly the named object -- for all stack depths and queue lengths. "
+            "QuantumTape.__enter__/__exit__ pop once and release the lock once on every (also exceptional) exit path; the "
+            "adjoint/ctrl qfunc wrappers and create_controlled_op2 remove each consumed operator exactly once and nothing else; "
+            "pow, prod, sum, s_prod, exp and nested wrappers are covered by 20 bounded native scenarios only.",
+            "Trusts the pyvc encoder, z3; OrderedDict, copy.copy, Operator.queue and the with-protocol are assumed; "
+            "metadata kwargs, from_queue, capture mode and threads are outside.",
             "DESIGN.md 4 C41", "E1"),
     "C45": ("proof",
             "sidecar contracts over the label-sequence view on the real methods of pennylane/wires.py: label sequences of "
@@ -375,10 +409,12 @@ CLAIMED = {
             "__getitem__, contains_wires, toset/tolist/labels, map, subset (plain and periodic), the four named set operations "
             "and their eight operator forms for Wires / tuple / set operands, __add__/__radd__ are proved for label sequences "
             "of every length: results are duplicate-free, contain exactly the labels the set operation defines, keep the "
-            "stated order, and WireError is raised exactly for duplicates / missing labels. all_wires, shared_wires and "
-            "unique_wires are proved for lists of 1-3 Wires objects (size-bounded in the number of objects, unbounded in labels).",
+            "stated order, and WireError is raised exactly for duplicates / missing labels. all_wires and shared_wires are "
+            "proved for any number of Wires objects (symbolic-length list of label sequences of symbolic length); string "
+            "labels are one label; unique_wires is proved for lists of 1-3 Wires objects (size-bounded in the number of objects).",
             "Trusts the pyvc encoder, the sequence axioms (transcription-checked, not proved), z3; labels are an abstract "
-            "hashable sort (string labels, numpy/jax inputs, select_random are outside); iteration order of python sets is "
+            "hashable sort (numpy/jax inputs, select_random, all_wires(sort=True) are outside); itertools.chain and functools.reduce "
+            "of set intersection are assumed contracts; iteration order of python sets is "
             "left unconstrained, so results built from sets are specified up to order.",
             "DESIGN.md 4 C45", "E1"),
     "C65": ("other",
@@ -422,7 +458,8 @@ CLAIMED = {
             "simulations/executions/shots as computed for that circuit (shots only for shot-based circuits), records results in "
             "order, calls the wrapped method exactly once and returns its result; no tracker write when inactive - for all "
             "values and all history / batch lengths on the enumerated dictionary key-sets.",
-            "update keyword sets, float-result batches and the group count of the counting helper are size-bounded; floats as "
+            "circuits carry a symbolic len() (a bare circuit is not a batch of one); update keyword sets, float-result batches and "
+            "the group count of the counting helper are size-bounded; floats as "
             "reals; the undecorated device method, callbacks and _group_measurements are uninterpreted; devices without the "
             "decorator and QNode-level batching are outside.",
             "DESIGN.md 4 C73", "E1"),
@@ -480,6 +517,53 @@ CLAIMED = {
             "Size-bounded (level other); graph colouring assumed (confirmed on all graphs with <= 4 nodes, bounded); "
             "recursive_largest_first, binary conversions and diagonalize_qwc_* are not covered. F27 fixed in repo.",
             "DESIGN.md 4 C52", "E1+E2b"),
+    "C18": ("other",
+            "E3 frame checking: a flow-sensitive may-alias analysis of the real transform ASTs (68 transforms enumerated "
+            "from the AST on every run, plus CompilePipeline.__call_tapes and _group_measurements), one named frame "
+            "obligation per write site (setattr, setitem, mutating method call, augmented assignment, call that mutates "
+            "an argument): the written object must not be, or be reachable from, a parameter; helper effects come from "
+            "summaries computed from the helpers' own bodies, the QuantumScript accessor contracts "
+            "(operations/measurements return the internal list, copy, bind_new_parameters) are re-derived from their "
+            "bodies each run; a bounded native stand-in compares a fingerprint of the input tape before and after",
+            "Every write site in the 68 tape transforms and the pipeline writes only to objects the function created "
+            "itself (199 sites; 14 unclassified sites are counted and listed in the evidence); the native stand-in runs "
+            "each transform on 3 tapes with default arguments (bounded). Findings F30 (merge_rotations), F31 "
+            "(commute_controlled, hence compile), F7 (__call_tapes) and F6 (_group_measurements) were found by these "
+            "obligations, reproduced natively and repaired in /repo.",
+            "183 call sites of callees without a reachable body are assumed pure (frequencies listed in the evidence); "
+            "operators and measurements are treated as immutable unless a write site says otherwise; shots/wires/data are "
+            "scalar-like; expand/map_wires/map_to_standard_wires may return self (by name). Writes hidden inside assumed "
+            "callees, aliasing through operator internals, QNode-level application and re-execution results are not "
+            "covered.",
+            "DESIGN.md 4 C18, 7", "E3"),
+    "C59": ("other",
+            "E1 on python sets of enumerated size with symbolic real elements: the real join_spectra and the "
+            "processing_fn closure returned by the real circuit_spectrum are executed symbolically; postconditions are "
+            "membership formulas (every a+b and |a-b| present, nothing else); join_spectra is used inside processing_fn "
+            "through its verified contract with its non-negativity precondition proved at each call; z3",
+            "join_spectra returns exactly {a+b, |a-b|} for non-negative spectra (sizes 0..3 x 0..3, both == {0} "
+            "shortcuts, 0 preserved); circuit_spectrum's processing_fn accumulates, per marked parameter, every |f1 +- f2 "
+            "+- ... +- fk| of the marked one-parameter gates and nothing else, returns a strictly increasing list "
+            "symmetric around 0, honours encoding_gates and raises ValueError for multi-parameter encoding gates (8 "
+            "circuit layouts, at most 2 independent marked gates, 3 with a common frequency): the reported spectrum is a "
+            "superset of the true one by the product rule (lemma stated, not proved).",
+            "Size-bounded throughout (level other); get_spectrum is assumed to return a non-negative set containing 0; "
+            "sorted(set); floats as reals; qnode_spectrum, coefficients, reconstruct and rounding are not covered.",
+            "DESIGN.md 4 C59, 7", "E1"),
+    "C49": ("other",
+            "E2: the real reduce_dm, partial_trace, reduce_statevector, dm_from_state_vector, purity, expectation_value, "
+            "marginal_prob (math/quantum.py) and expand_matrix/_permute_dense_matrix (math/matrix_manipulation.py) run on "
+            "object arrays of generic symbolic complex entries (no normalisation or hermiticity assumed); every result "
+            "entry and the result shape are compared as polynomials with the definition written as explicit bit-string "
+            "index arithmetic, so equality holds for all complex entries",
+            "Reduced density matrices, partial traces, marginal probabilities, purity, expectation values and matrix "
+            "expansion to a larger wire order agree with explicit index contraction / tensor re-indexing for all complex "
+            "entries on registers of 1-3 qubits, every ordered subset of kept/traced wires, unbatched and batch of 2 "
+            "(size-bounded, level other).",
+            "Harness assumptions: autoray.astype keeps object arrays of symbols, real/imag entrywise. Everything resting "
+            "on eig/log/sqrtm (entropies, fidelity, trace distance, relative entropy, mutual information, sqrt_matrix), "
+            "registers above 3 qubits, non-numpy interfaces, check_state=True and sparse expand_matrix are not covered.",
+            "DESIGN.md 7", "E2"),
     "C61": ("proof",
             "contract on step/step_and_cost/apply_grad/compute_grad of the six gradient optimizers: outputs == documented "
             "update rule; real methods executed on sympy-backed symbolic scalars from an arbitrary accumulator state with an "
